@@ -43,6 +43,14 @@ pub fn dispatch(ctx: &Ctx, rep: &mut Report) {
                 crate::onris::c04::run(ctx, rep);
             }
         },
+        "C05" => {
+            if fm {
+                crate::onfm::c05::run(ctx, rep);
+            }
+            if ris {
+                crate::onris::c05::run(ctx, rep);
+            }
+        },
         other => {
             eprintln!("unknown check {other}");
             std::process::exit(3);
